@@ -484,14 +484,32 @@ def scalar_block(ctx, name):
             aux = {k: v for k, v in aux.items() if k != I}
     st, pd = prior_arm(loop)
     in_prior = set(id(x) for b in (st.body if st is not None else []) for x in ast.walk(b))
-    mean = one({k: [v for v in vs if not (isinstance(v, ast.Constant))] for k, vs in A.items()}, "mean", f)
-    sds = [v for v in A.get("stddev", []) if id(v) not in in_prior]
+    # roles by use, whatever the locals are called: the data-arm draw `self.P[i] = normal(MEAN, SD)`; RESID is what MEAN sums; N counts rows
+    data_draws = [n for n in walk_own(loop) if isinstance(n, ast.Assign) and isinstance(n.value, ast.Call) and attr_tail(n.value) == "normal" and len(n.value.args) >= 2
+                  and id(n) not in in_prior and U(n.targets[0]) == f"self.{P}[{i}]"]
+    ctx.need(len(data_draws) == 1, f"{f.site()}: the data-arm draw self.{P}[{i}] = normal(mean, sd) was not found")
+    MEAN_N = data_draws[0].value.args[0].id if isinstance(data_draws[0].value.args[0], ast.Name) else "mean"
+    SD_N = data_draws[0].value.args[1].id if isinstance(data_draws[0].value.args[1], ast.Name) else "stddev"
+    mean = one({k: [v for v in vs if not (isinstance(v, ast.Constant))] for k, vs in A.items()}, MEAN_N, f)
+    sds = [v for v in A.get(SD_N, []) if id(v) not in in_prior]
     ctx.need(len(sds) == 1, f"{f.site()}: data-arm stddev not found")
+    RESID_N = "resid"
+    for x in ast.walk(mean):
+        if isinstance(x, ast.Call) and isinstance(x.func, ast.Attribute) and x.func.attr == "sum" and isinstance(x.func.value, ast.Name) and not x.args:
+            RESID_N = x.func.value.id
+        if isinstance(x, ast.Call) and call_name(x) == "np.sum" and len(x.args) == 1 and isinstance(x.args[0], ast.Name):
+            RESID_N = x.args[0].id
+    N_N = "N"
+    if "N" not in A:
+        cnt_ = [k for k, vs in A.items() if len(vs) == 1 and isinstance(vs[0], ast.Call) and call_name(vs[0]) == "len" and len(vs[0].args) == 1 and U(vs[0].args[0]) == I]
+        if len(cnt_) == 1:
+            N_N = cnt_[0]
+    aux = {k: v for k, v in aux.items() if k not in (MEAN_N, SD_N, RESID_N, N_N)}
     env = dict(aux)
     Ndef = None
-    if "N" in A:
-        Ndef = one(A, "N", f)
-        env["N"] = Ndef
+    if N_N in A:
+        Ndef = one(A, N_N, f)
+        env[N_N] = Ndef
     Nn = NN()
     Ne = NN(env)
     mean = _canon_len(inline(mean, env), A, I)
@@ -499,12 +517,12 @@ def scalar_block(ctx, name):
     if Ndef is not None:
         Ndef = _canon_len(Ndef, A, I)
     denom = f"(self.prec * len({I}) + {prior})"
-    ok_mean = Ne.n(mean) == Nn.n(parse_expr(f"self.prec * resid.sum() / {denom}")) or Ne.n(mean) == Nn.n(parse_expr(f"self.prec * np.sum(resid) / {denom}"))
+    ok_mean = Ne.n(mean) == Nn.n(parse_expr(f"self.prec * {RESID_N}.sum() / {denom}")) or Ne.n(mean) == Nn.n(parse_expr(f"self.prec * np.sum({RESID_N}) / {denom}"))
     ok_sd = Ne.n(sds[0]) == Nn.n(parse_expr(f"1.0 / np.sqrt({denom})"))
     ctx.check("R4", f"{f.site()}::mean", ok_mean, f"mean == prec * sum(resid) / (prec * len({I}) + {prior})", f"conditional mean is `{U(inline(mean, env))}`")
     ctx.check("R4", f"{f.site()}::stddev", ok_sd, f"sd == (prec * len({I}) + {prior})^(-1/2)", f"conditional sd is `{U(inline(sds[0], env))}`")
-    draws = [n for n in walk_own(loop) if isinstance(n, ast.Assign) and isinstance(n.value, ast.Call) and attr_tail(n.value) == "normal" and U(n.value.args[0]) == "mean"]
-    ok = len(draws) == 1 and U(draws[0].targets[0]) == f"self.{P}[{i}]" and U(draws[0].value.args[1]) == "stddev"
+    draws = [n for n in walk_own(loop) if isinstance(n, ast.Assign) and isinstance(n.value, ast.Call) and attr_tail(n.value) == "normal" and U(n.value.args[0]) == MEAN_N]
+    ok = len(draws) == 1 and U(draws[0].targets[0]) == f"self.{P}[{i}]" and U(draws[0].value.args[1]) == SD_N
     ctx.check("R4", f"{f.site()}::draw", ok, f"self.{P}[{i}] = normal(mean, stddev)", f"the block's draw is `{U(draws[0]) if draws else None}`")
     ok = pd is not None and U(pd.targets[0]) == f"self.{P}[{i}]"
     if ok:
@@ -524,7 +542,7 @@ def scalar_block(ctx, name):
             return keepers[0]
         return default
     if name == "_W0_step":
-        resid = one(A, "resid", f)
+        resid = one(A, RESID_N, f)
         oldname = old_role("old_contrib")
         old = one(A, oldname, f)
         old_ok = U(old) == f"self.{P}[{i}]"
@@ -539,19 +557,27 @@ def scalar_block(ctx, name):
         old_ok = U(old) == f"self.{P}[{i}]"
         # the two per-position residuals: named locals, or the elements of the stack written in place
         stack_elts = None
-        rdef_ = A.get("resid", [])
+        rdef_ = A.get(RESID_N, [])
         if len(rdef_) == 1 and isinstance(rdef_[0], ast.Call) and call_name(rdef_[0]) in ("np.concatenate", "np.hstack") and rdef_[0].args \
                 and isinstance(rdef_[0].args[0], (ast.List, ast.Tuple)) and len(rdef_[0].args[0].elts) == 2:
             stack_elts = rdef_[0].args[0].elts
+        # the per-position row sets by role: the two members of the stack that the row set is
+        idef_ = A.get(I, [])
+        idx_names = ["idx1", "idx2"]
+        if len(idef_) == 1 and isinstance(idef_[0], ast.Call) and call_name(idef_[0]) in ("np.concatenate", "np.hstack") and idef_[0].args \
+                and isinstance(idef_[0].args[0], (ast.List, ast.Tuple)) and len(idef_[0].args[0].elts) == 2 and all(isinstance(x, ast.Name) for x in idef_[0].args[0].elts):
+            idx_names = [x.id for x in idef_[0].args[0].elts]
+        res_names = [x.id if isinstance(x, ast.Name) else None for x in stack_elts] if stack_elts is not None else ["resid1", "resid2"]
         for pos_, kk in enumerate(("1", "2")):
-            rs = [data_arm(v, f"idx{kk}") for v in A.get(f"resid{kk}", []) if not isinstance(v, ast.List)]
+            ik = idx_names[pos_]
+            rs = [data_arm(v, ik) for v in A.get(res_names[pos_] or f"resid{kk}", []) if not isinstance(v, ast.List)]
             if not rs and stack_elts is not None and not isinstance(stack_elts[pos_], ast.Name):
-                rs = [data_arm(stack_elts[pos_], f"idx{kk}")]
+                rs = [data_arm(stack_elts[pos_], ik)]
             ctx.need(len(rs) == 1 and rs[0] is not None, f"{f.site()}: residual of position {kk} not found")
-            ok_res = NN({k_: v_ for k_, v_ in aux.items() if k_ != oldname}).n(rs[0]) == Nn.n(parse_expr(f"y[idx{kk}] - self.Mu[idx{kk}] + {oldname}"))
+            ok_res = NN({k_: v_ for k_, v_ in aux.items() if k_ not in (oldname, ik)}).n(rs[0]) == Nn.n(parse_expr(f"y[{ik}] - self.Mu[{ik}] + {oldname}"))
             ctx.check("R3", f"{f.site()}::residual-position-{kk}", ok_res and old_ok, f"resid{kk} == y[idx{kk}] - Mu[idx{kk}] + {P}[{i}]", f"partial residual of position {kk} is `{U(rs[0])}`")
-        ok_st = (U(one(A, "resid", f)).replace(" ", "") == "np.concatenate([resid1,resid2])" or (stack_elts is not None and not any(isinstance(x, ast.Name) for x in stack_elts))) \
-            and U(one(A, "idx", f)).replace(" ", "") == "np.concatenate([idx1,idx2])"
+        ok_st = (stack_elts is not None and ([x.id if isinstance(x, ast.Name) else None for x in stack_elts] == res_names)) \
+            and U(one(A, I, f)).replace(" ", "") == f"np.concatenate([{idx_names[0]},{idx_names[1]}])"
         ctx.check("R3", f"{f.site()}::stack-order", ok_st and ok_N, "resid and idx are stacked in the same order; N = len(idx)", "residuals and indices of the two positions are not stacked in one order / N is not their count")
     upd = [n for n in walk_own(loop) if isinstance(n, ast.AugAssign) and isinstance(n.target, ast.Subscript) and U(n.target.value) == "self.Mu"]
     ok = len(upd) == 1 and isinstance(upd[0].op, ast.Add) and U(upd[0].target.slice) == I and Nn.n(upd[0].value) == Nn.n(parse_expr(f"self.{P}[{i}] - {oldname}")) \
@@ -742,7 +768,7 @@ def r6(ctx):
                     ds = g.defs_reaching(c, nm)
                     if len(ds) == 1 and isinstance(ds[0].stmt, ast.Assign):
                         lo_def = ds[0].stmt.value
-                pos = U(lo_def).replace(" ", "") in ("1.0/np.sqrt(1+self.n_obs())", "1.0/np.sqrt(1.0+N1+N2)") or \
+                pos = _positive_bound(lo_def, fenv) or \
                     (isinstance(lo_def, ast.Constant) and isinstance(lo_def.value, (int, float)) and lo_def.value > 0)
                 if pos and U(hi) in ("1000000.0", "1e6", "1e+06"):
                     good.append(c)
@@ -786,11 +812,61 @@ def r6(ctx):
     # shrinkage blocks: the rate of phi_k / eta_k depends on 1/2 * (block)^2 * partner precision of the SAME block
     for k in ("0", "1", "2"):
         f = meths[f"_prec_V{k}_step"]
-        A = all_assigns(f.node)
-        bns = [U(v).replace(" ", "") for v in A.get("bn", [])]
+        # the rates by role: the scale argument of the gamma draw stored into self.phi<k> / self.eta<k>, read through the definitions that
+        # reach the draw (the rate local is re-bound between the two draws)
+        gk = CFG(f.node)
+        bns = []
+        for tgt_attr in (f"phi{k}", f"eta{k}"):
+            for n_ in gk.stmts(ast.Assign):
+                st_ = n_.stmt
+                if U(st_.targets[0]) == f"self.{tgt_attr}" and isinstance(st_.value, ast.Call) and attr_tail(st_.value) == "gamma" and len(st_.value.args) >= 2:
+                    e_ = st_.value.args[1]
+                    for _ in range(3):
+                        sub_ = {}
+                        for nm_ in sorted(names_in(e_)):
+                            ds_ = gk.defs_reaching(n_, nm_)
+                            if len(ds_) == 1 and isinstance(ds_[0].stmt, ast.Assign) and isinstance(ds_[0].stmt.targets[0], ast.Name) and not any(
+                                    isinstance(x, ast.Call) and attr_tail(x) == "gamma" for x in ast.walk(ds_[0].stmt.value)):
+                                sub_[nm_] = ds_[0].stmt.value
+                        if not sub_:
+                            break
+                        e_ = inline(e_, sub_, depth=1)
+                    bns.append(U(e_).replace(" ", ""))
         ok = len(bns) == 2 and any(f"0.5*self.eta{k}*self.V{k}**2" in b for b in bns) and any(f"0.5*(self.phi{k}*self.V{k}**2).sum(" in b for b in bns)
         ctx.check("R6", f"{f.site()}::rates-use-own-block", ok, f"phi{k} rate uses eta{k} * V{k}^2 / 2, eta{k} rate uses sum(phi{k} * V{k}^2) / 2",
                   f"shrinkage rates are {bns}: they must use the squared parameters and the partner precision of block V{k} itself")
+
+
+def _positive_bound(e, env):
+    """1.0 / np.sqrt(c + counts) with a constant c >= 1 and counts that cannot be negative (len(..), self.n_obs(), arrays of lens, locals
+    bound once to such): a lower clip bound in (0, 1], whatever the locals are called"""
+    def count(x, depth=0):
+        if depth > 4:
+            return False
+        if isinstance(x, ast.Name):
+            return x.id in env and count(env[x.id], depth + 1)
+        if isinstance(x, ast.Call) and call_name(x) == "len" and len(x.args) == 1:
+            return True
+        if isinstance(x, ast.Call) and U(x.func) == "self.n_obs" and not x.args:
+            return True
+        if isinstance(x, ast.Call) and call_name(x) in ("np.array", "np.asarray") and x.args and isinstance(x.args[0], (ast.ListComp, ast.List)):
+            a0 = x.args[0]
+            return count(a0.elt, depth + 1) if isinstance(a0, ast.ListComp) else all(count(y, depth + 1) for y in a0.elts)
+        if isinstance(x, ast.BinOp) and isinstance(x.op, ast.Add):
+            return count(x.left, depth + 1) and count(x.right, depth + 1)
+        return False
+
+    def terms(x):
+        if isinstance(x, ast.BinOp) and isinstance(x.op, ast.Add):
+            return terms(x.left) + terms(x.right)
+        return [x]
+    if not (isinstance(e, ast.BinOp) and isinstance(e.op, ast.Div) and isinstance(e.left, ast.Constant) and e.left.value in (1, 1.0)
+            and isinstance(e.right, ast.Call) and call_name(e.right) == "np.sqrt" and len(e.right.args) == 1):
+        return False
+    ts = terms(e.right.args[0])
+    consts = [t for t in ts if isinstance(t, ast.Constant) and isinstance(t.value, (int, float))]
+    rest = [t for t in ts if t not in consts]
+    return sum(c.value for c in consts) >= 1 and all(count(t) for t in rest)
 
 
 def stale_reads(ctx, f):
@@ -1043,8 +1119,23 @@ def r9(ctx):
     ctx.check("R9", f"{f2.site()}==_reconstruct_Mu", mu1 == mu2, "the exported predictor has the sampler's mean polynomial",
               "module-level predict and the sampler's _reconstruct_Mu are different functions of the parameters: exported samples would not reproduce the fitted values")
     g = ctx.fn(f"{IMPL}.get")
-    src_g = U(g.node).replace(" ", "")
-    ok = "self.__getattribute__(attr)[ix].copy()" in src_g and "np.where(ix==-1)[0]" in src_g and "A[controls]=0.0" in src_g
+    # by role: the returned local is a copy of the gathered rows, and its rows at the positions where the index is -1 are set to 0
+    genv = single_defs(g.node)
+    attr_p, ix_p = (g.params + ["attr", "ix"])[1:3]
+    rets_g = returns(g.node)
+    ok = False
+    rdefs = [n.value for n in walk_own(g.node) if isinstance(n, ast.Assign) and len(n.targets) == 1 and isinstance(n.targets[0], ast.Name)
+             and len(rets_g) == 1 and isinstance(rets_g[0].value, ast.Name) and n.targets[0].id == rets_g[0].value.id]
+    if len(rdefs) == 1:
+        Rn = rets_g[0].value.id
+        d_ = U(rdefs[0]).replace(" ", "")
+        copy_ok = d_ in (f"self.__getattribute__({attr_p})[{ix_p}].copy()", f"getattr(self,{attr_p})[{ix_p}].copy()", f"np.array(self.__getattribute__({attr_p})[{ix_p}])",
+                         f"np.copy(self.__getattribute__({attr_p})[{ix_p}])")
+        zero = [n for n in walk_own(g.node) if isinstance(n, ast.Assign) and len(n.targets) == 1 and isinstance(n.targets[0], ast.Subscript) and U(n.targets[0].value) == Rn
+                and isinstance(n.value, ast.Constant) and n.value.value in (0, 0.0)]
+        where_ok = len(zero) == 1 and U(inline(zero[0].targets[0].slice, genv)).replace(" ", "") in (f"np.where({ix_p}==-1)[0]", f"{ix_p}==-1", f"np.flatnonzero({ix_p}==-1)",
+                                                                                                    f"np.where({ix_p}==CONTROL_SENTINEL_VALUE)[0]", f"{ix_p}==CONTROL_SENTINEL_VALUE")
+        ok = copy_ok and where_ok
     ctx.check("R9", f"{g.site()}::zeroes-controls", ok, "sampler-side gather zeroes the rows indexed by -1 on a copy (same convention as the exported predictor)",
               "the sampler's gather no longer zeroes control (-1) rows on a copy")
 
